@@ -157,6 +157,29 @@ pub fn templates() -> Vec<(String, Module)> {
         ],
         vec![],
     );
+    // a key that can no longer be looked up (a table changed after it was stored, a function value:
+    // never equal to itself) leaves its bucket behind when the row is popped; from then on only the
+    // bucket refers to the key object, and later lookups compare against it
+    for (tag, key, change) in [
+        ("mutated-table", C::CreateTable, Some(C::Append(b(int(1)), b(rv("k"))))),
+        ("function", C::Function("kf".into()), None),
+        ("closure", C::Closure(vec![], vec![C::Return(b(int(1)))]), None),
+        ("native-function", C::NativeFunction("log2".into()), None),
+    ] {
+        let mut c = vec![sg("tt", C::CreateTable), sv("k", key), C::SetProperty(b(s("payload of the orphaned key")), b(rv("tt")), b(rv("k")))];
+        c.extend(change);
+        c.push(sink(C::PopTable(b(rv("tt")))));
+        c.push(sv("k", C::Nil));
+        c.push(sg("_sink", C::Nil));
+        c.push(sg("j", s("junk 1")));
+        c.push(sg("j2", C::CreateTable));
+        c.push(log2("read", C::GetProperty(b(rv("tt")), b(C::CreateTable))));
+        c.push(C::SetProperty(b(int(2)), b(rv("tt")), b(C::CreateTable)));
+        c.push(sg("j3", s("junk 2")));
+        c.push(log2("read2", C::GetProperty(b(rv("tt")), b(C::CreateTable))));
+        c.push(log2("tt", C::Len(b(rv("tt")))));
+        t(&format!("orphaned-bucket-key-{tag}"), c, vec![("kf", func(&[], vec![C::Return(b(int(1)))]))]);
+    }
     // one object as key and as value
     t("same-object-key-and-value", vec![sv("sk", s("key and value")), sv("tt", C::CreateTable), C::SetProperty(b(rv("sk")), b(rv("tt")), b(rv("sk"))), sg("j", s("junk")), log2("tt", rv("tt")), C::SetProperty(b(rv("tt")), b(rv("tt")), b(int(1))), sg("j2", s("junk"))], vec![]);
     // library functions backed by natives, with allocating key functions
